@@ -52,6 +52,23 @@ Theorem C10_run_depends_on_norm : forall cfg r1 r2,
 Proof. exact fmt_run_depends_on_norm. Qed.
 Print Assumptions C10_run_depends_on_norm.
 
+(* formatting a formatted run again (same position, width and depth) changes nothing.  Proved for every
+   run that is followed by a token; C10_run_idempotent_partial: the run that ends the file
+   (f_at_end = true, where the last substitution rewrites the trailing white space) is not covered by this
+   theorem, it is checked on real luafmt output by the monitor *)
+Theorem C10_run_idempotent_partial : forall cfg r, f_at_end cfg = false ->
+  fmt_run cfg (fmt_run cfg r) = fmt_run cfg r.
+Proof. exact fmt_run_idempotent. Qed.
+Print Assumptions C10_run_idempotent_partial.
+
+(* the exact line form of the output: the run, split at line feeds after the tab / line-end
+   normalisation, is mapped line by line (fmt_lines) and joined again *)
+Theorem C10_run_canonical_form : forall cfg r l0 ls, split_nl (canon_ws r) = l0 :: ls ->
+  fmt_run cfg r =
+  (if f_at_end cfg then trail_nl (joinl (fmt_lines cfg l0 ls)) else joinl (fmt_lines cfg l0 ls)).
+Proof. exact fmt_run_lines. Qed.
+Print Assumptions C10_run_canonical_form.
+
 Example C10_norm_nonvacuous :
   let r1 := [SP; TAB; NL; TAB; SP; DASH; DASH; 99; SP; SP; NL; SP; SP; SP] in
   let r2 := [NL; DASH; DASH; 99; NL] in
